@@ -46,6 +46,8 @@ type WireProg struct {
 }
 
 type wireWalker struct {
+	callAlias map[types.Object]string // locals defined once from an argument-less getter call
+	tagLocals map[types.Object]Op // locals assigned one constant per case of a type switch (see tagSwitch)
 	p        *Program
 	pkg      *packages.Package
 	info     *types.Info
@@ -526,6 +528,16 @@ func (w *wireWalker) stmts(list []ast.Stmt) []Op {
 
 // mergeLenLoops turns "u64 len(P)" followed by "loop P" into "slice:u64 P".
 func mergeLenLoops(ops []Op) []Op {
+	// "if len(P) > 0 { for … range P { … } }" is the loop itself
+	for i, o := range ops {
+		if o.Kind == "cond" && len(o.Cases) == 0 && len(o.Sub) == 1 && o.Sub[0].Kind == "loop" {
+			p := o.Sub[0].Path
+			switch strings.TrimSuffix(strings.TrimPrefix(o.Typ, "("), ")") {
+			case "len(" + p + ") > 0", "len(" + p + ") != 0", "0 < len(" + p + ")", "len(" + p + ") >= 1":
+				ops[i] = o.Sub[0]
+			}
+		}
+	}
 	var out []Op
 	for i := 0; i < len(ops); i++ {
 		o := ops[i]
@@ -601,6 +613,19 @@ func (w *wireWalker) stmt(s ast.Stmt) []Op {
 					if o := w.info.Defs[id]; o != nil {
 						if pth := w.pathOf(s.Rhs[i]); pth != "" && !strings.HasPrefix(pth, "<") && !strings.HasPrefix(pth, "$") {
 							w.paths[o] = pth
+						} else if call, isCall := stripParens(s.Rhs[i]).(*ast.CallExpr); isCall && s.Tok == token.DEFINE && strings.HasPrefix(pth, "<") && len(call.Args) == 0 {
+							// v := x.getter(): a value computed once by an argument-less method of a non-coder value and
+							// written later is written as x.getter() is
+							if sel, isSel := stripParens(call.Fun).(*ast.SelectorExpr); isSel {
+								if fn, isFn := w.info.Uses[sel.Sel].(*types.Func); isFn {
+									if sig, _ := fn.Type().(*types.Signature); sig != nil && sig.Recv() != nil && !isCoderType(sig.Recv().Type(), "") {
+										if w.callAlias == nil {
+											w.callAlias = map[types.Object]string{}
+										}
+										w.callAlias[o] = pth // used where the local is written raw (rawOp)
+									}
+								}
+							}
 						}
 					}
 					continue
@@ -794,6 +819,14 @@ func (w *wireWalker) stmt(s ast.Stmt) []Op {
 			sw.Cases = append(sw.Cases, OpCase{Tag: tag, Ops: body})
 		}
 		if !any {
+			// "tag variable": every case only assigns a constant to one local, which is written afterwards; the
+			// write then stands for this switch with the constants in place (same program as writing in each case)
+			if tsw, obj := w.tagSwitch(s, sw); obj != nil {
+				if w.tagLocals == nil {
+					w.tagLocals = map[types.Object]Op{}
+				}
+				w.tagLocals[obj] = tsw
+			}
 			return ops
 		}
 		return append(ops, sw)
@@ -829,6 +862,9 @@ func (w *wireWalker) stmt(s ast.Stmt) []Op {
 func (w *wireWalker) constOrExpr(e ast.Expr) string {
 	if tv, ok := w.info.Types[e]; ok && tv.Value != nil {
 		return tv.Value.ExactString()
+	}
+	if v := w.pkgVarConst(e); v != nil {
+		return v.ExactString()
 	}
 	return types.ExprString(e)
 }
@@ -1174,6 +1210,17 @@ func (w *wireWalker) call(c *ast.CallExpr, lhs string) []Op {
 		if r := sig.Recv(); r != nil && isCoderType(r.Type(), "") {
 			name := fn.Name()
 			if k, ok := encPrims[name]; ok && len(c.Args) == 1 {
+				if id, isID := stripParens(c.Args[0]).(*ast.Ident); isID {
+					if tsw, isTag := w.tagLocals[w.info.Uses[id]]; isTag {
+						for i := range tsw.Cases {
+							for j := range tsw.Cases[i].Ops {
+								tsw.Cases[i].Ops[j].Typ = k + ":" + tsw.Cases[i].Ops[j].Typ
+							}
+						}
+						tsw.Pos = c.Pos()
+						return []Op{tsw}
+					}
+				}
 				op := Op{Kind: k, Path: w.pathOf(c.Args[0]), Pos: c.Pos()}
 				if tv, ok := w.info.Types[c.Args[0]]; ok && tv.Value != nil {
 					op.Kind, op.Typ, op.Path = "const", k+":"+tv.Value.ExactString(), ""
@@ -1317,6 +1364,11 @@ func (w *wireWalker) rawOp(arg ast.Expr, pos token.Pos) Op {
 	if ce, ok := a.(*ast.CallExpr); ok && w.isConversion(ce) && len(ce.Args) == 1 {
 		if tv, ok := w.info.Types[ce.Args[0]]; ok && tv.Value != nil {
 			return Op{Kind: "const", Typ: "raw:" + tv.Value.ExactString(), Pos: pos}
+		}
+	}
+	if id, ok := a.(*ast.Ident); ok {
+		if pth, ok := w.callAlias[w.info.Uses[id]]; ok {
+			return Op{Kind: "raw", Path: pth, Pos: pos}
 		}
 	}
 	return Op{Kind: "raw", Path: w.pathOf(arg), Pos: pos}
@@ -1500,6 +1552,8 @@ func (w *wireWalker) hashAllOps(c *ast.CallExpr) []Op {
 			case b.Info()&types.IsString != 0:
 				if tv.Value != nil {
 					ops = append(ops, Op{Kind: "dist", Typ: tv.Value.ExactString(), Pos: a.Pos()})
+				} else if v := w.pkgVarConst(a); v != nil {
+					ops = append(ops, Op{Kind: "dist", Typ: v.ExactString(), Pos: a.Pos()})
 				} else {
 					ops = append(ops, Op{Kind: "dist", Typ: "<" + w.pathOf(a) + ">", Pos: a.Pos()})
 				}
@@ -1614,3 +1668,165 @@ func sortedKeys[V any](m map[string]V) []string {
 	sort.Strings(out)
 	return out
 }
+
+// tagSwitch recognises a type switch whose cases (other than a default that assigns nothing) each consist of one
+// assignment of a constant to the same local variable; it returns the switch op with a const op (value only; the
+// width is added where the local is written) per case, and the variable.
+func (w *wireWalker) tagSwitch(s *ast.TypeSwitchStmt, sw Op) (Op, types.Object) {
+	var obj types.Object
+	out := Op{Kind: "switch", Typ: "type", Path: sw.Path, Pos: sw.Pos}
+	for i, cc := range s.Body.List {
+		cl := cc.(*ast.CaseClause)
+		tag := sw.Cases[i].Tag
+		if cl.List == nil {
+			for _, b := range cl.Body {
+				if _, isAssign := b.(*ast.AssignStmt); isAssign {
+					return Op{}, nil
+				}
+			}
+			out.Cases = append(out.Cases, OpCase{Tag: tag})
+			continue
+		}
+		if len(cl.Body) != 1 {
+			return Op{}, nil
+		}
+		as, ok := cl.Body[0].(*ast.AssignStmt)
+		if !ok || as.Tok != token.ASSIGN || len(as.Lhs) != 1 || len(as.Rhs) != 1 {
+			return Op{}, nil
+		}
+		id, ok := as.Lhs[0].(*ast.Ident)
+		tv, hasTV := w.info.Types[as.Rhs[0]]
+		if !ok || !hasTV || tv.Value == nil || w.info.Uses[id] == nil {
+			return Op{}, nil
+		}
+		if obj != nil && obj != w.info.Uses[id] {
+			return Op{}, nil
+		}
+		obj = w.info.Uses[id]
+		out.Cases = append(out.Cases, OpCase{Tag: tag, Ops: []Op{{Kind: "const", Typ: tv.Value.ExactString(), Pos: as.Pos()}}})
+	}
+	return out, obj
+}
+
+var pkgVarConstMemo = map[types.Object]map[string]constant.Value{}
+
+// pkgVarConst: e names a package-level variable of the module (v, or v.f for a struct-typed v) that is initialised
+// with a constant (a composite literal of constants) and never assigned, incremented or address-taken anywhere in
+// the module: the constant it holds. nil otherwise.
+func (w *wireWalker) pkgVarConst(e ast.Expr) constant.Value {
+	e = stripParens(e)
+	field := ""
+	if sel, ok := e.(*ast.SelectorExpr); ok {
+		if _, isPkg := w.info.Uses[identOf(sel.X)].(*types.PkgName); !isPkg || identOf(sel.X) == nil {
+			field = sel.Sel.Name
+			e = stripParens(sel.X)
+		} else {
+			e = sel.Sel
+		}
+	}
+	id, ok := e.(*ast.Ident)
+	if !ok {
+		return nil
+	}
+	v, ok := w.info.Uses[id].(*types.Var)
+	if !ok || v.Pkg() == nil || v.Parent() != v.Pkg().Scope() {
+		return nil
+	}
+	if m, done := pkgVarConstMemo[v]; done {
+		return m[field]
+	}
+	m := map[string]constant.Value{}
+	pkgVarConstMemo[v] = m
+	var home *packages.Package
+	for _, pk := range w.p.Pkgs {
+		if pk.Types == v.Pkg() {
+			home = pk
+		}
+	}
+	if home == nil {
+		return nil
+	}
+	// written anywhere?
+	for _, pk := range w.p.Pkgs {
+		written := false
+		for _, f := range pk.Syntax {
+			ast.Inspect(f, func(n ast.Node) bool {
+				root := func(x ast.Expr) types.Object {
+					for {
+						switch y := stripParens(x).(type) {
+						case *ast.SelectorExpr:
+							if o, isVar := pk.TypesInfo.Uses[y.Sel].(*types.Var); isVar && o == v {
+								return o
+							}
+							x = y.X
+						case *ast.IndexExpr:
+							x = y.X
+						case *ast.Ident:
+							return pk.TypesInfo.Uses[y]
+						default:
+							return nil
+						}
+					}
+				}
+				switch x := n.(type) {
+				case *ast.AssignStmt:
+					for _, l := range x.Lhs {
+						if root(l) == v {
+							written = true
+						}
+					}
+				case *ast.IncDecStmt:
+					if root(x.X) == v {
+						written = true
+					}
+				case *ast.UnaryExpr:
+					if x.Op == token.AND && root(x.X) == v {
+						written = true
+					}
+				}
+				return !written
+			})
+		}
+		if written {
+			return nil
+		}
+	}
+	for _, f := range home.Syntax {
+		for _, d := range f.Decls {
+			gd, ok := d.(*ast.GenDecl)
+			if !ok || gd.Tok != token.VAR {
+				continue
+			}
+			for _, sp := range gd.Specs {
+				vs := sp.(*ast.ValueSpec)
+				for i, n := range vs.Names {
+					if home.TypesInfo.Defs[n] != v || i >= len(vs.Values) {
+						continue
+					}
+					init := stripParens(vs.Values[i])
+					if tv, ok := home.TypesInfo.Types[init]; ok && tv.Value != nil {
+						m[""] = tv.Value
+					}
+					if cl, ok := init.(*ast.CompositeLit); ok {
+						st, _ := v.Type().Underlying().(*types.Struct)
+						for j, el := range cl.Elts {
+							if kv, ok := el.(*ast.KeyValueExpr); ok {
+								if k, ok := kv.Key.(*ast.Ident); ok {
+									if tv, ok := home.TypesInfo.Types[kv.Value]; ok && tv.Value != nil {
+										m[k.Name] = tv.Value
+									}
+								}
+							} else if st != nil && j < st.NumFields() {
+								if tv, ok := home.TypesInfo.Types[el]; ok && tv.Value != nil {
+									m[st.Field(j).Name()] = tv.Value
+								}
+							}
+						}
+					}
+				}
+			}
+		}
+	}
+	return m[field]
+}
+
